@@ -866,15 +866,99 @@ func ruleA2(w *world.World, r *report.RuleResult) {
 
 func ruleA3(w *world.World, r *report.RuleResult) {
 	const NONZERO world.Facts = 1
+	isDeadlineValue := func(v ssa.Value) bool {
+		if p, ok := v.(*ssa.Parameter); ok && isTimeType(p.Type()) {
+			return true
+		}
+		return isExpireAtField(v)
+	}
+	// a bool parameter that every call site binds to "the deadline is non-zero" (the test was made
+	// by the caller and handed to a helper): true = has a deadline
+	flagMemo := map[*ssa.Parameter]int{} // 1 = non-zero flag, 2 = zero flag, -1 = neither
+	deadlineFlag := func(p *ssa.Parameter) int {
+		if v, ok := flagMemo[p]; ok {
+			return v
+		}
+		flagMemo[p] = -1
+		fn := p.Parent()
+		if fn == nil || !types.Identical(p.Type().Underlying(), types.Typ[types.Bool]) {
+			return -1
+		}
+		pi := -1
+		for i, q := range fn.Params {
+			if q == p {
+				pi = i
+			}
+		}
+		kind, sites := 0, 0
+		for _, caller := range w.ModFns {
+			if strings.Contains(w.Pos(caller.Pos()), "_test.go") {
+				continue
+			}
+			for _, c := range world.Calls(caller) {
+				if c.Common().StaticCallee() != fn || pi >= len(c.Common().Args) {
+					continue
+				}
+				sites++
+				arg := c.Common().Args[pi]
+				neg := false
+				for {
+					u, ok := arg.(*ssa.UnOp)
+					if !ok || u.Op != token.NOT {
+						break
+					}
+					arg, neg = u.X, !neg
+				}
+				v, trueIsZero, ok := zeroTimeTest(arg)
+				if !ok || !derivesFrom(v, isDeadlineValue, 0) {
+					return -1
+				}
+				k := 1
+				if trueIsZero != neg {
+					k = 2
+				}
+				if kind != 0 && kind != k {
+					return -1
+				}
+				kind = k
+			}
+		}
+		if sites == 0 || kind == 0 {
+			return -1
+		}
+		flagMemo[p] = kind
+		return kind
+	}
 	nonzeroGen := func(param func(ssa.Value) bool) world.EdgeGen {
 		return func(b *ssa.BasicBlock, si int) world.Facts {
 			iff := world.IfOf(b)
 			if iff == nil {
 				return 0
 			}
-			if v, trueIsZero, ok := zeroTimeTest(world.CondValue(iff)); ok && derivesFrom(v, param, 0) {
+			cv := world.CondValue(iff)
+			if v, trueIsZero, ok := zeroTimeTest(cv); ok && derivesFrom(v, param, 0) {
 				if (si == 0) != trueIsZero {
 					return NONZERO
+				}
+			}
+			neg := false
+			for {
+				u, ok := cv.(*ssa.UnOp)
+				if !ok || u.Op != token.NOT {
+					break
+				}
+				cv, neg = u.X, !neg
+			}
+			if p, ok := cv.(*ssa.Parameter); ok {
+				switch deadlineFlag(p) {
+				case 1:
+					if (si == 0) != neg {
+						return NONZERO
+					}
+				case 2:
+					if (si == 0) == neg {
+						return NONZERO
+					}
 				}
 			}
 			return 0
